@@ -9,6 +9,8 @@ import DaskModel.Model.ArrayExpr
 import DaskModel.Model.Moment
 import DaskModel.Model.ArgNd
 import DaskModel.Model.TsqrPlanIO
+import DaskModel.Model.MaskedRedIO
+import DaskModel.Model.ArrayExprNdIO
 open Dask
 
 namespace ReduceDriver
@@ -535,6 +537,7 @@ def table : List (String × Handler) := [
   ("rnghist", ReduceDriver.hRngHist), ("rshist", ReduceDriver.hRsHist),
   ("contract", ReduceDriver.hContract), ("blocksumover", ReduceDriver.hBlockSumOver), ("stackgroups", ReduceDriver.hStackGroups), ("cumsumblocks", ReduceDriver.hCumsumBlocks),
   ("aeeval", ReduceDriver.hAeEval), ("aestep", ReduceDriver.hAeStep)]
-  ++ Dask.TsqrPlanIO.handlers
+  ++ Dask.TsqrPlanIO.handlers ++ Dask.ArrayExprNdIO.handlers
+  ++ Dask.MaskedRedIO.handlers
 
 def main : IO Unit := runDriver table
